@@ -184,8 +184,6 @@ def structure_problem(case, res):
                     return "transition-count-not-a-natural-number"
     if any(isinstance(x, str) for row in res["rewards"] for x in row):
         return "reward-tally-nonfinite"
-    if res["Q"] != res["q_matrix"]:
-        return "q-dict-differs-from-q-matrix"
     return None
 
 
@@ -210,7 +208,9 @@ def run(ctx):
     info = {}
     counters = {"trivial_no_steps": 0, "with_known_pairs": 0, "with_known_and_unknown_tried": 0,
                 "steps_total": 0, "steps_max": 0, "known_pairs_total": 0, "ignored_samples_total": 0,
-                "upper_bound_exceeded_within_float_slack": 0}
+                "upper_bound_exceeded_within_float_slack": 0,
+                "actions_listed_in_other_than_action_list_order": 0, "per_state_action_orders_differ": 0,
+                "string_action_labels": 0, "multi_action": 0}
     by_gamma, by_m = {}, {}
     for i, (case, res) in enumerate(zip(cases, impl)):
         if "error" in res:
@@ -255,6 +255,11 @@ def run(ctx):
         counters["known_pairs_total"] += known
         counters["ignored_samples_total"] += len(exp) - sum(x for row in cnt for x in row)
         counters["upper_bound_exceeded_within_float_slack"] += int(any(x > q0 for row in Qv for x in row))
+        perm = case.get("action_perm") or [al]
+        counters["actions_listed_in_other_than_action_list_order"] += int(any(list(p) != list(al) for p in perm))
+        counters["per_state_action_orders_differ"] += int(len({tuple(p) for p in perm}) > 1)
+        counters["string_action_labels"] += int(any(isinstance(x, str) for x in (case.get("action_labels") or [])))
+        counters["multi_action"] += int(nA > 1)
         by_gamma[case["mdp"]["gamma"]] = by_gamma.get(case["mdp"]["gamma"], 0) + 1
         by_m[str(case["m"])] = by_m.get(str(case["m"]), 0) + 1
         info[i]["known"] = known
@@ -287,6 +292,9 @@ def run(ctx):
                 if why:   # the independent oracle and the proved checker must agree
                     ctx.violation("C17:oracle-disagrees-with-certificate:%s" % why["clause"],
                                   {"case": case, "failing_clause": why, "impl": res}, found=False)
+                elif res["Q"] != res["q_matrix"]:
+                    # every clause holds for the returned dict, yet it is not the learner's table read by label
+                    ctx.violation("C17:q-dict-differs-from-q-matrix", {"case": case, "impl": res}, found=False)
         else:
             nmir += 1
             ok, close, actok = v
@@ -303,7 +311,8 @@ def run(ctx):
         "rule": "proper MDPs from harness/gen_mdp.py (proper=True, uniform_actions=True: 1..%d states, 1..3 actions available in every state, "
                 "k/8 probabilities, zero entries, duplicate rows, explicit absorbing goals possibly with ignored self-loop rewards, "
                 "multi-state initial distributions, rewards in quarters), gamma in {1/2,3/4,7/8}, threshold m in 1..5, episodes 1..30, "
-                "random seed, tolerance in {1e-5 (x3), 1e-3, 1e-1}, rmax = max of the reward matrix (the code asserts it); 92%% of MDPs are "
+                "random seed, tolerance in {1e-5 (x3), 1e-3, 1e-1}, action labels ints / renamed ints / strings and actions(s) listing them "
+                "sorted / in one shuffled order / in a different shuffled order per state (results mapped back by label), rmax = max of the reward matrix (the code asserts it); 92%% of MDPs are "
                 "resampled until some initial state is non-absorbing; distinct = structural hash of the whole case; "
                 "non-trivial = at least one state-action pair reached the threshold (value iteration ran)" % (5 if tier == "quick" else 6),
         "samples": [{"case": cases[0], "impl": impl[0]}] if cases else [],
